@@ -350,7 +350,9 @@ func genCase(rng *rand.Rand, n int, seed int64, pf Profile) *CaseDesc {
 	// final
 	fin := &ProvDesc{Idx: L - 1, Kind: "inj"}
 	fin.In = pickIn(avail)
-	if len(avail) > 0 && len(fin.In) == 0 {
+	// (now and then the final function takes nothing although values are on offer: then what it returns
+	// gets the first slots of the value collection)
+	if len(avail) > 0 && len(fin.In) == 0 && !chance(rng, 0.2) {
 		fin.In = []int{pick(rng, avail)}
 	}
 	nret := rng.Intn(3)
